@@ -43,8 +43,14 @@ package primitives
 //@   props C01
 //@ func Hemisphere.UV frameonly
 //@   props C01
-//@ func Quad.ToMesh frameonly
-//@   props C01
+// Quad.ToMesh: four vertices (positions, normals), two triangles over them. The texture-coordinate array (four entries when
+// UVs are given) is not covered: the StripUVs corner methods have no contract, and after those calls nothing is known about the map.
+//@ func Quad.ToMesh
+//@   props C01 C02
+//@   returns r
+//@   ensures [C02] well_formed_topology: modeling.topoOK(r)
+//@   ensures [C02] index_values: forall i int :: 0 <= i && i < len(r.indices) ==> 0 <= r.indices[i] && r.indices[i] < 4
+//@   ensures [C02] counts: len(r.indices) == 6 && has(r.v3Data, "Position") && len(r.v3Data["Position"]) == 4 && has(r.v3Data, "Normal") && len(r.v3Data["Normal"]) == 4 && r.topology == modeling.TriangleTopology
 // UVSphere: 2 + (rows-1)*columns vertices (positions and normals), 6*columns*(rows-1) indices, every index a vertex
 // (the "no attributes, no indices" part of wf is immediate from has(Position) and is not stated separately).
 //@ func UVSphere
